@@ -4,3 +4,4 @@ import TvCore.Model.Ports
 import TvCore.Model.World
 import TvCore.Model.Ops
 import TvCore.Props.C03
+import TvCore.Props.C09Fanout
